@@ -109,9 +109,21 @@ def worker(u):
     if u['what'] == 'bracket':
         import c03_bracket
         return c03_bracket.run_bracket(u)
+    if u['what'] == 'termination':
+        import c03_bracket
+        return c03_bracket.run_termination(u)
+    if u['what'] == 'overflow':
+        import c03_bracket
+        return c03_bracket.run_overflow(u)
     return run_gs3(u) if u['what'] == 'gs3' else run_stumpff(u)
 
 def replay(data):
+    if data.get('kind') == 'overflow':
+        import c03_bracket
+        return c03_bracket.native_long_steps()
+    if data.get('kind') == 'hang':
+        import c03_bracket
+        return c03_bracket.native_hang()
     if data.get('kind') == 'bracket':
         import c03_bracket
         return c03_bracket.replay(data)
@@ -125,6 +137,9 @@ def main():
     us = [dict(what='stumpff', fn='stumpff_cs3', K=4, nmax=nmax, sign=s, t_ms=20000 if tier == 'quick' else 120000) for s in (1, -1)]
     us += [dict(what='stumpff', fn='stumpff_cs', K=6, nmax=nmax, sign=s, t_ms=20000 if tier == 'quick' else 120000) for s in (1, -1)]
     us.append(dict(what='gs3'))
+    us += [dict(what='termination', fn='stumpff_cs3'), dict(what='termination', fn='stumpff_cs')]
+    for st, sg in ((('pericentre', 1), ('incoming', 1), ('pericentre', -1)) if tier == 'quick' else [(a_, b_) for a_ in ('pericentre', 'incoming', 'outgoing') for b_ in (1, -1)]):
+        us.append(dict(what='overflow', state=st, sign=sg, t_ms=60000 if tier == 'quick' else 300000))
     us.append(dict(what='bracket', t_ms=20000 if tier == 'quick' else 120000))
     rep = run_units(us, worker)
     code = finish(PID, tier, rep, t0,
